@@ -106,7 +106,7 @@ mut("C13", "activation-dof", E + "FEM/_forms.py", "            u._Set_current_ac
 mut("C13", "linear-assemble-rows", E + "FEM/_forms.py", "        rows = groupElem.Get_assembly_e(dof_n).ravel()\n        columns = np.zeros_like(rows)", "        rows = groupElem.Get_assembly_e(dof_n).ravel()\n        columns = np.ones_like(rows)", "LinearForm.Assemble")
 mut("C13", "weakforms-slot", E + "Simulations/_weakforms.py", "        return {self.mesh.groupElem: (K_e, C_e, M_e, F_e)}", "        return {self.mesh.groupElem: (K_e, M_e, C_e, F_e)}", "WeakForms.Construct_local_matrix_system")
 mut("C14", "rotate-no-notify", E + "FEM/_mesh.py", "        newCoord = Rotate(oldCoord, theta, center, direction)\n        for groupElem in self.dict_groupElem.values():\n            groupElem.coord = newCoord\n        self._Notify(\"The mesh has been modified\")", "        newCoord = Rotate(oldCoord, theta, center, direction)\n        for groupElem in self.dict_groupElem.values():\n            groupElem.coord = newCoord", "Mesh.Rotate")
-mut("C14", "group-coord-no-init", E + "FEM/_group_elem.py", "        self.__coord = coord[self.nodes]\n        self._InitMatrix()", "        self.__coord = coord[self.nodes]", "coord")
+mut("C14", "group-coord-no-init", E + "FEM/_group_elem.py", "        self.__coord = np.asarray(coord[self.nodes], dtype=float)\n        self._InitMatrix()", "        self.__coord = np.asarray(coord[self.nodes], dtype=float)", "coord")
 mut("C14", "update-keeps-cache", E + "Simulations/_simu.py", "            clear_cached_computed_values(self)\n            self.Need_Update()\n        else:\n            Terminal.MyPrintError(\"Notification not yet implemented\")", "            self.Need_Update()\n        else:\n            Terminal.MyPrintError(\"Notification not yet implemented\")", "__Mass_e")
 mut("C14", "getKCMF-no-clear", E + "Simulations/_simu.py", "            self.Need_Update(False)\n\n        return self.__K", "            pass\n\n        return self.__K", "Get_K_C_M_F")
 mut("C15", "getter-no-copy", E + "Simulations/_simu.py", "        arr = self.__dict_u_n[problemType].copy()", "        arr = self.__dict_u_n[problemType]", "_Get_u_n")
@@ -132,7 +132,7 @@ mut("C19", "save-no-copy", E + "Simulations/_inelastic.py", "        self.__zOld
 mut("C20", "energy-all-rows", E + "Simulations/_simu.py", "        return Reduce_sum(0.5 * x[dofs] @ (A[dofs] @ x))", "        return Reduce_sum(0.5 * x @ (A @ x))", "Calc_Energy")
 mut("C20", "reaction-rows", E + "Simulations/_simu.py", "            reaction[dofs] += M[dofs] @ self._Get_a_n(problemType)", "            reaction += M @ self._Get_a_n(problemType)", "Calc_Reaction")
 mut("C20", "partition-unsorted", E + "FEM/_group_elem.py", "        elements = np.sort(np.asarray(elements, dtype=int))", "        elements = np.asarray(elements, dtype=int)", None)
-mut("C20", "ghost-any-axis", E + "FEM/_mesher.py", "mask = np.isin(other_connect, nodes_arr).any(axis=1)", "mask = np.isin(other_connect, nodes_arr).all(axis=1)", "__Get_partitioned_groupElems")
+mut("C20", "ghost-any-axis", E + "FEM/_mesher.py", "mask = np.isin(other_connect, owned_arr).any(axis=1)", "mask = np.isin(other_connect, owned_arr).all(axis=1)", "__Get_partitioned_groupElems")
 
 # ---------------------------------------------------------------- rules added after the first seeded round
 mut("C02", "thermal-thickness-model-dim", E + "Simulations/_thermal.py", "            if self.mesh.dim == 2:\n                thickness = thermalModel.thickness", "            if self.dim == 2:\n                thickness = thermalModel.thickness", "Thermal")
@@ -145,7 +145,7 @@ mut("C19", "voce-dR", E + "Models/InElastic/IsotropicHardening.py", "        lam
 mut("C19", "hill-normal-scale", E + "Models/InElastic/Yield.py", "        return Ps_e_pg / safe\n\n    def dNdSig", "        return 2 * Ps_e_pg / safe\n\n    def dNdSig", "Hill")
 mut("C19", "norton-dinverse", E + "Models/InElastic/ViscoPlastic.py", "        return sigma_0 / (n * A) * (np.maximum(g, _TINY) / A) ** (1 / n - 1)", "        return sigma_0 / (n * A) * (np.maximum(g, _TINY) / A) ** (1 / n)", "Norton")
 mut("C18", "dI2-shear-coef", E + "Models/HyperElastic/_state.py", "        coef = -np.sqrt(2)\n\n        dI2dC_e_pg[:, :, 0] = cyy + czz", "        coef = -2.0\n\n        dI2dC_e_pg[:, :, 0] = cyy + czz", "Compute_dI2dC")
-mut("C18", "spk-thickness-residual-only", E + "FEM/Operators/NonLinear.py", "        thickness = material.thickness\n        tangent_e *= thickness\n        residual_e *= thickness\n\n    K_e, R_e = __reorder_dofs(dim, nPe, tangent_e, residual_e)\n    return K_e, R_e\n\n\ndef GonzalezStressTensor", "        thickness = material.thickness\n        residual_e *= thickness\n\n    K_e, R_e = __reorder_dofs(dim, nPe, tangent_e, residual_e)\n    return K_e, R_e\n\n\ndef GonzalezStressTensor", "SecondPiolaKirchhoffStressTensor")
+mut("C18", "spk-thickness-residual-only", E + "FEM/Operators/NonLinear.py", "        thickness = material.thickness\n        tangent_e *= thickness\n        residual_e *= thickness\n\n    return __reorder_dofs(dim, nPe, tangent_e, residual_e)\n\n\ndef GonzalezStressTensor", "        thickness = material.thickness\n        residual_e *= thickness\n\n    return __reorder_dofs(dim, nPe, tangent_e, residual_e)\n\n\ndef GonzalezStressTensor", "SecondPiolaKirchhoffStressTensor")
 mut("C03", "assembly-drop-empty-K", E + "Simulations/_simu.py", "        dict_KCMF = self.Construct_local_matrix_system(problemType)\n", "        dict_KCMF = {g: t for g, t in self.Construct_local_matrix_system(problemType).items() if t[0] is not None}\n", "Assembly")
 mut("C07", "weighted-jacobian-mean", E + "FEM/_mesh.py", "            values_e = jacobian_e_pg.max(1) / jacobian_e_pg.min(1)", "            values_e = jacobian_e_pg.max(1) / jacobian_e_pg.mean(1)", "unweighted")
 mut("C17", "plane-sqrt-unclamped", E + "Models/_phasefield.py", "            delta = np.maximum(delta, 0.0)\n", "", "sqrt")
@@ -166,7 +166,7 @@ same("C04", "lagrange-sum-by-bincount", E + "Simulations/Solvers.py", "    np.ad
 mut("C04", "lagrange-col-unscaled", E + "Simulations/Solvers.py", "    A[dofs_Dirichlet, linesDirichlet] = alpha\n", "    A[dofs_Dirichlet, linesDirichlet] = 1.0\n", "__Solver_2")
 mut("C02", "timo2d-shear-sign", E + "FEM/Elems/_beam.py", "            B_e_pg[:, :, 2, idx_rz] -= Nu_pg  # -θ", "            B_e_pg[:, :, 2, idx_rz] += Nu_pg  # -θ", "Get_beam_B_e_pg")
 mut("C01", "eb3d-torsion-on-ry", E + "FEM/Elems/_beam.py", "            B_e_pg[:, :, 1, idx_rx] = dN_e_pg[:, :, 0]  # torsion: drx/dx (Lagrange)", "            B_e_pg[:, :, 1, idx_rx + 1] = dN_e_pg[:, :, 0]  # torsion: drx/dx (Lagrange)", "Get_beam_B_e_pg")
-mut("C09", "beam-lineload-row", E + "Simulations/_beam.py", "                N_e_pg[:, :, row, :],", "                N_e_pg[:, :, u, :],", "add_lineLoad")
+mut("C09", "beam-lineload-row", E + "Simulations/_beam.py", "                P_e[:, row % 3, :],\n                N_e_pg[:, :, block : block + 3, :],", "                P_e[:, u % 3, :],\n                N_e_pg[:, :, block : block + 3, :],", "add_lineLoad")
 mut("C09", "nodal-load-wrong-order", E + "Simulations/_simu.py", "                    eval_n[nodes] = values[u]\n                    eval_e = eval_n[connect]  # (Ne, nPe)", "                    eval_n[np.sort(nodes)] = values[u]\n                    eval_e = eval_n[connect]  # (Ne, nPe)", "__Bc_Integration_Dim")
 mut("C11", "param-get-no-copy", E + "Utilities/_params.py", "        return copy.copy(instance.__dict__[self.__name])", "        return instance.__dict__[self.__name]", "__get__")
 mut("C11", "param-set-early-return", E + "Utilities/_params.py", "        instance.__dict__[self.__name] = value\n        if isinstance(instance, Updatable):", "        instance.__dict__[self.__name] = value\n        if np.ndim(value) == 0:\n            return\n        if isinstance(instance, Updatable):", "__set__")
@@ -259,7 +259,7 @@ mut("C09", "lineload-frame-transposed", E + "Simulations/_beam.py", "           
 mut("C14", "new-mesh-not-observed", E + "Simulations/_simu.py", "            # the simulation looks for modifications of the new mesh too\n            mesh._Add_observer(self)\n", "", "R14.17")
 mut("C14", "dirichlet-no-resize", E + "Simulations/_simu.py", "        if len(self.__Bc_Lagrange) > 0:\n            # with Lagrange multipliers the size of the matrix system follows the Dirichlet dofs\n            self.Need_Update()\n", "", "R14.3b")
 same("C14", "getKCMF-locals", E + "Simulations/_simu.py", "        return self.__K.copy(), self.__C.copy(), self.__M.copy(), self.__F.copy()", "        K = self.__K.copy()\n        C, M, F = self.__C.copy(), self.__M.copy(), self.__F.copy()\n        return K, C, M, F")
-same("C14", "coord-setter-validation", E + "FEM/_group_elem.py", "        self.__coord = coord[self.nodes]\n        self._InitMatrix()", "        if not isinstance(coord, np.ndarray):\n            raise TypeError(\"coord must be an array\")\n        self.__coord = coord[self.nodes]\n        self._InitMatrix()")
+same("C14", "coord-setter-validation", E + "FEM/_group_elem.py", "        self.__coord = np.asarray(coord[self.nodes], dtype=float)\n        self._InitMatrix()", "        if not isinstance(coord, np.ndarray):\n            raise TypeError(\"coord must be an array\")\n        self.__coord = np.asarray(coord[self.nodes], dtype=float)\n        self._InitMatrix()")
 mut("C10", "yaxis-not-unit", E + "Models/Beam/_beam.py", "            yAxis = Normalize(np.cross(zAxis, xAxis))", "            yAxis = np.cross(zAxis, xAxis) * 2", "R10.8")
 same("C10", "yaxis-two-steps", E + "Models/Beam/_beam.py", "            zAxis = Normalize(np.cross(xAxis, yAxis))", "            zAxis = np.cross(xAxis, yAxis)\n            zAxis = Normalize(zAxis)")
 mut("C15", "load-mesh-swapped-kw", E + "FEM/_mesh.py", "            elements=elements, nodes=nodes, rank=rank, ghostElements=ghostElements", "            elements=nodes, nodes=elements, rank=rank, ghostElements=ghostElements", "R15.5")
